@@ -76,6 +76,11 @@ func normObs(o *casefmt.Obs) string {
 	c.WallMs = 0
 	c.Stderr = ""
 	c.RaceTexts = nil
+	// the simulated execution (schedule, events, results) is what must repeat; *which* of several racing pairs
+	// ThreadSanitizer's bounded history still reports depends on how goroutines were mapped to OS threads
+	if len(c.Races) > 0 {
+		c.Races = []string{"race(s) reported"}
+	}
 	b, _ := json.Marshal(&c)
 	return reAddr.ReplaceAllString(string(b), "0xADDR")
 }
